@@ -5781,6 +5781,9 @@ class ConstControlT {
 	template <typename, typename>
 	friend struct QueryWrapperT;
 
+	template <typename, typename, Prong, typename...>
+	friend struct OS_;
+
 protected:
 	using Context			= typename TArgs::Context;
 
@@ -7591,6 +7594,9 @@ class EventControlT final
 
 	template <typename, typename>
 	friend struct PostReactWrapperT;
+
+	template <typename, typename, Prong, typename...>
+	friend struct OS_;
 
 	using FullControl	= FullControlT<TArgs>;
 
@@ -13038,7 +13044,9 @@ OS_<TN_, TA_, NP_, TI_, TR_...>::widePreReact(EventControl& control,
 {
 	TaskStatus status;
 	status |= Initial  ::deepPreReact(control, event);
-	status |= Remaining::widePreReact(control, event);
+
+	if (!control._consumed)
+		status |= Remaining::widePreReact(control, event);
 
 	return status;
 }
@@ -13052,7 +13060,9 @@ OS_<TN_, TA_, NP_, TI_, TR_...>::wideReact(EventControl& control,
 {
 	TaskStatus status;
 	status |= Initial  ::deepReact(control, event);
-	status |= Remaining::wideReact(control, event);
+
+	if (!control._consumed)
+		status |= Remaining::wideReact(control, event);
 
 	return status;
 }
@@ -13066,7 +13076,9 @@ OS_<TN_, TA_, NP_, TI_, TR_...>::widePostReact(EventControl& control,
 {
 	TaskStatus status;
 	status |= Initial  ::deepPostReact(control, event);
-	status |= Remaining::widePostReact(control, event);
+
+	if (!control._consumed)
+		status |= Remaining::widePostReact(control, event);
 
 	return status;
 }
@@ -13079,7 +13091,9 @@ OS_<TN_, TA_, NP_, TI_, TR_...>::wideQuery(ConstControl& control,
 										   TEvent& event) const noexcept
 {
 	Initial  ::deepQuery(control, event);
-	Remaining::wideQuery(control, event);
+
+	if (!control._consumed)
+		Remaining::wideQuery(control, event);
 }
 
 #if HFSM2_PLANS_AVAILABLE()
